@@ -60,7 +60,37 @@ func checkBudget(r *Run, prog *Program, a *Anchors, pfx string) {
 			r.Check(pfx+".counter-census", fa.Fn.Name()+":parser.Stats", prog.pos(fa.Instr.Pos()), fa.Fn == newParser, "parser.Stats (which holds the step counter) is replaced outside newParser")
 		}
 	}
-	okW := len(cntWrites) == 1 && cntWrites[0].Fn == parseExpr
+	// the counting function: parseExpr itself, or a helper parseExpr calls first thing
+	counter := parseExpr
+	if len(cntWrites) == 1 && cntWrites[0].Fn != parseExpr {
+		w := cntWrites[0].Fn
+		ncall, okCall := 0, false
+		if n := prog.CG.Nodes[w]; n != nil {
+			for _, e := range n.In {
+				if isSynthetic(e.Caller.Func) {
+					continue
+				}
+				ncall++
+				if e.Caller.Func == parseExpr && e.Site != nil && e.Site.Block() == parseExpr.Blocks[0] {
+					// nothing but field loads before it
+					okCall = true
+					for _, ins := range parseExpr.Blocks[0].Instrs {
+						if ins == ssa.Instruction(e.Site.(*ssa.Call)) {
+							break
+						}
+						switch ins.(type) {
+						case *ssa.Call, *ssa.TypeAssert, *ssa.Store:
+							okCall = false
+						}
+					}
+				}
+			}
+		}
+		if ncall == 1 && okCall {
+			counter = w
+		}
+	}
+	okW := len(cntWrites) == 1 && cntWrites[0].Fn == counter
 	if okW {
 		// value = load(ExprCnt) + 1
 		bo, ok := cntWrites[0].Val.(*ssa.BinOp)
@@ -84,7 +114,7 @@ func checkBudget(r *Run, prog *Program, a *Anchors, pfx string) {
 	// reads of the counter: the increment and one comparison, both in parseExpr
 	var cmp *ssa.BinOp
 	for _, rd := range cntReads {
-		ok := rd.Fn == parseExpr
+		ok := rd.Fn == counter
 		use := "?"
 		if v, isV := rd.Instr.(ssa.Value); isV && v.Referrers() != nil {
 			for _, u := range *v.Referrers() {
@@ -112,7 +142,7 @@ func checkBudget(r *Run, prog *Program, a *Anchors, pfx string) {
 		ok := false
 		where := rd.Fn.Name()
 		switch {
-		case rd.Fn == parseExpr:
+		case rd.Fn == counter:
 			ok = true
 		case rd.Fn == newParser:
 			ok = true
@@ -143,16 +173,31 @@ func checkBudget(r *Run, prog *Program, a *Anchors, pfx string) {
 	}
 	// the comparison: counter vs budget, exceeded edge panics with errMaxExprCnt, both dominate the dispatch
 	okCmp := false
-	if cmp != nil && cmp.Block() == parseExpr.Blocks[0] {
+	if cmp != nil && cmp.Block() == counter.Blocks[0] {
 		ldM, isLd := cmp.Y.(*ssa.UnOp)
 		if isLd {
-			if fa, isFA := ldM.X.(*ssa.FieldAddr); isFA && fieldName(fa.X.Type(), fa.Field) == "maxExprCnt" && (cmp.Op == token.GTR || cmp.Op == token.GEQ) {
+			if fa, isFA := ldM.X.(*ssa.FieldAddr); isFA && fieldName(fa.X.Type(), fa.Field) == "maxExprCnt" {
 				if ifi, isIf := cmp.Block().Instrs[len(cmp.Block().Instrs)-1].(*ssa.If); isIf && ifi.Cond == ssa.Value(cmp) {
-					thenB := cmp.Block().Succs[0]
-					if pn, isP := thenB.Instrs[len(thenB.Instrs)-1].(*ssa.Panic); isP {
-						root, _ := rootOf(pn.X)
-						if g, isG := root.(*ssa.Global); isG && g.Name() == "errMaxExprCnt" {
-							okCmp = true
+					// the edge on which the counter exceeds the budget
+					exceeded := -1
+					switch cmp.Op {
+					case token.GTR, token.GEQ:
+						exceeded = 0
+					case token.LEQ, token.LSS:
+						exceeded = 1
+					}
+					if exceeded >= 0 {
+						pb := cmp.Block().Succs[exceeded]
+						if pn, isP := pb.Instrs[len(pb.Instrs)-1].(*ssa.Panic); isP {
+							root, _ := rootOf(pn.X)
+							if g, isG := root.(*ssa.Global); isG && g.Name() == "errMaxExprCnt" {
+								okCmp = true
+							}
+						}
+						// the other edge must not panic
+						ob := cmp.Block().Succs[1-exceeded]
+						if _, isP := ob.Instrs[len(ob.Instrs)-1].(*ssa.Panic); isP {
+							okCmp = false
 						}
 					}
 				}
@@ -161,7 +206,11 @@ func checkBudget(r *Run, prog *Program, a *Anchors, pfx string) {
 	}
 	r.Check(pfx+".budget-test", "parseExpr:compare-and-panic", prog.pos(parseExpr.Pos()), okCmp, "parseExpr's entry block must compare the counter with the budget (`>`/`>=`) and panic with errMaxExprCnt on the exceeded edge")
 	// every dispatch arm (type assertions / calls to parse*Expr) is dominated by the not-exceeded edge
-	if okCmp {
+	if okCmp && counter != parseExpr {
+		// the counting helper is called first thing in parseExpr's entry block (checked above): it precedes the whole dispatch
+		r.Check(pfx+".budget-test", "parseExpr:test-dominates-dispatch", prog.pos(parseExpr.Pos()), true, "info: counting helper "+counter.Name()+" is the first call of parseExpr")
+	}
+	if okCmp && counter == parseExpr {
 		cont := parseExpr.Blocks[0].Succs[1]
 		bad := 0
 		for _, b := range parseExpr.Blocks {
@@ -226,6 +275,26 @@ func checkBudget(r *Run, prog *Program, a *Anchors, pfx string) {
 	checkBudgetTransport(r, prog, a, newParser, maxExprOpt, pfx)
 }
 
+// bexprHelper: an unexported, non-anchor function of package bexpr that may be interpreted in place.
+func bexprHelper(prog *Program, a *Anchors, c *ssa.Function) bool {
+	if fnPkg(c) != prog.Bexpr.Types || c.Parent() != nil || len(c.Blocks) == 0 {
+		return false
+	}
+	switch c {
+	case a.GetOpts, a.Dispatch, a.MatchEval, a.CollEval, a.GetValue, a.EqTable, a.CoerceTab, a.CreateEv, a.CreateFi:
+		return false
+	}
+	if c.Object() != nil && c.Object().Exported() {
+		return false
+	}
+	for _, m := range a.Matchers {
+		if m == c {
+			return false
+		}
+	}
+	return true
+}
+
 // isCaptured: v is a captured variable of the enclosing constructor (by value, or a load of it when captured by reference).
 func isCaptured(v ssa.Value) bool {
 	if _, ok := v.(*ssa.FreeVar); ok {
@@ -259,6 +328,7 @@ func checkBudgetTransport(r *Run, prog *Program, a *Anchors, newParser, maxExprO
 	// CreateEvaluator: budget option forwarded unmodified iff non-zero; nothing else is passed to the parser
 	fn := a.CreateEv
 	ps := NewPathSim(prog)
+	ps.Inline = func(c *ssa.Function) bool { return bexprHelper(prog, a, c) }
 	sums := ps.Run(fn)
 	nz, z := 0, 0
 	for _, sm := range sums {
@@ -275,25 +345,22 @@ func checkBudgetTransport(r *Run, prog *Program, a *Anchors, newParser, maxExprO
 				continue
 			}
 			opts := ev.Args[2]
+			elems, okE := sliceElems(sm.St, opts, ev.Deref[2])
 			if isZero {
 				z++
-				r.Check(pfx+".transport", "CreateEvaluator:budget=0", prog.pos(ev.Instr.Pos()), opts.IsNil(), "with a zero budget no parser option must be passed (0 means unlimited); got "+shortKey(opts))
+				r.Check(pfx+".transport", "CreateEvaluator:budget=0", prog.pos(ev.Instr.Pos()), okE && len(elems) == 0, "with a zero budget no parser option must be passed (0 means unlimited); got "+shortKey(opts))
 				continue
 			}
 			nz++
-			base, parts := appendChain(sm.St, opts)
-			ok := base != nil && base.IsNil() && len(parts) == 1
+			ok := okE && len(elems) == 1
 			why := "the parser options are not exactly [grammar.MaxExpressions(budget)]"
 			if ok {
-				el := getPath(parts[0].Deref[1], []string{"[const(0)]"})
-				ok = el != nil && len(parts[0].Deref[1].F) == 1
-				if ok {
-					callee, _ := calleeOfSym(el)
-					args := symArgs(sm.St, el)
-					ok = callee == maxExprOpt && len(args) == 1 && args[0].Key() == budget.Key()
-					if !ok {
-						why = "the value given to grammar.MaxExpressions is " + shortKey(el) + ", not the budget option unmodified"
-					}
+				el := elems[0]
+				callee, _ := calleeOfSym(el)
+				args := symArgs(sm.St, el)
+				ok = callee == maxExprOpt && len(args) == 1 && args[0].Key() == budget.Key()
+				if !ok {
+					why = "the value given to grammar.MaxExpressions is " + shortKey(el) + ", not the budget option unmodified"
 				}
 			}
 			r.Check(pfx+".transport", "CreateEvaluator:budget≠0", prog.pos(ev.Instr.Pos()), ok, why)
